@@ -175,6 +175,12 @@ def exec_producer_path(case):
                  for q in range(n)]
         if case.get("shuffle", True):
             rs.shuffle(parts)
+        if case.get("n_before"):
+            # an earlier refresh saw the topic with another partition count (grown since, or deleted and re-created)
+            nb = case["n_before"]
+            producer._metadata.update_metadata(MetadataResponse_v0(
+                [(i, "127.0.0.1", 9092 + i) for i in nodes], [(0, "t", [(0, q, nodes[q % len(nodes)], [0], [0]) for q in range(nb)])]))
+            out.label("partition_count_changed_" + ("down" if nb > n else "up" if nb < n else "same"))
         producer._metadata.update_metadata(MetadataResponse_v0([(i, "127.0.0.1", 9092 + i) for i in nodes], [(0, "t", parts)]))
         got_parts = producer._metadata.partitions_for_topic("t")
         if got_parts is None or set(got_parts) != set(range(n)):
@@ -263,6 +269,7 @@ def _strat_producer_path():
         "rng_seed": st.integers(0, 2 ** 32),
         "explicit": st.one_of(st.none(), st.integers(0, 500)),
         "ser": st.sampled_from([None, "prefix", "utf8"]),
+        "n_before": st.one_of(st.none(), st.none(), st.integers(1, 12), st.integers(1, 200)),
     })
 
 
